@@ -464,7 +464,7 @@ pub fn execute(scn: &Scenario, ctx: &mut Ctx) {
                     let (base, len, what) = if from_buffer { (buf.as_ptr() as usize, buf.len(), "parser buffer") } else { (rec_base, rec_len, "caller's record") };
                     if let Some((_, label, off, l)) = visit::first_outside(&sl, base, len) {
                         ctx.violate(Prop::C06, "provenance/defrag", || {
-                            format!("op {}: slice `{}` ({} bytes, offset {} relative to the {}) does not alias the {}", opno, label, l, off, what, what)
+                            { let _ = off; format!("op {}: slice `{}` ({} bytes) does not alias the {}", opno, label, l, what) }
                         });
                         ctx.violate(Prop::C07, "defrag-model/stale-bytes", || {
                             format!("op {}: slice `{}` ({} bytes) does not alias the {}", opno, label, l, what)
